@@ -203,11 +203,12 @@ def char_code(c):
 
 
 class SList(Sym):
-    __slots__ = ('items', 'tag')
+    __slots__ = ('items', 'tag', 'origin')
 
     def __init__(self, items, tag=None):
         self.items = list(items)
         self.tag = tag
+        self.origin = None       # for old(...) snapshots: the object this is a copy of
 
     def __repr__(self):
         return f"SList({self.items})"
@@ -215,11 +216,12 @@ class SList(Sym):
 
 class SDict(Sym):
     """dict with concrete (hashable python) keys, insertion ordered"""
-    __slots__ = ('d', 'tag')
+    __slots__ = ('d', 'tag', 'origin')
 
     def __init__(self, d=None, tag=None):
         self.d = dict(d or {})
         self.tag = tag
+        self.origin = None
 
     def __repr__(self):
         return f"SDict({self.d})"
@@ -234,12 +236,13 @@ class SSet(Sym):
 
 class SObj(Sym):
     """instance of a (real) class; fields symbolic"""
-    __slots__ = ('cls', 'fields', 'tag')
+    __slots__ = ('cls', 'fields', 'tag', 'origin')
 
     def __init__(self, cls, fields=None, tag=None):
         self.cls = cls
         self.fields = dict(fields or {})
         self.tag = tag
+        self.origin = None
 
     def __repr__(self):
         return f"SObj({self.cls.__name__}, {self.fields})"
